@@ -351,6 +351,11 @@ func runTeardownSuite(rep *Report, tier string, seed int64, prop string) {
 		c14InheritedIDLink(rep)
 	}
 	if prop == "C15" {
+		if tier == "thorough" {
+			c15CallsStartingAtTeardown(rep, prop, 6000, 24, 60*time.Second)
+		} else {
+			c15CallsStartingAtTeardown(rep, prop, 1500, 24, 8*time.Second)
+		}
 		for _, api := range apis() {
 			c15NestedClosureTeardown(rep, prop, api)
 			for _, cause := range []string{"cancel", "transport"} {
